@@ -9,3 +9,5 @@ import DSymVerif.Props.C17
 #print axioms DSymVerif.C17.invariants_table_wellformed
 #print axioms DSymVerif.C17.invariants_table_reachable
 #print axioms DSymVerif.C17.cubicKey_value
+#print axioms DSymVerif.C17.prefix_verdict_is_cascade
+#print axioms DSymVerif.C17.yes_carries_certificate
